@@ -226,6 +226,85 @@ fn directed_stale_snapshot(ctx: &mut Ctx, r: &mut Rng) {
     }
 }
 
+
+/// Directed single-threaded schedule: a long-lived handle has the multi-pack-index loaded; then the
+/// multi-pack-index is rewritten to cover a new pack, and one to three further packs are added that it does not
+/// cover. Everything published before a lookup starts is on disk in a complete pack and must be found by the old
+/// handle, by a clone of it and by a fresh store alike.
+fn directed_midx_rewrite(ctx: &mut Ctx, r: &mut Rng) {
+    let dir = ctx.dir("directed-midx");
+    let mut spec = repogen::DagSpec::small(r);
+    spec.commits = 3 + r.usize(5);
+    let Ok(repo) = repogen::build_dag(&dir, r, &spec) else {
+        ctx.inconclusive("repo-gen failed");
+        return;
+    };
+    let _ = repo.repack(10, 10, &[]);
+    let _ = git::run(&dir, &["multi-pack-index", "write"]);
+    let Ok(objs) = repo.all_objects() else { return };
+    let reachable: HashSet<String> = git::ok(&dir, &["rev-list", "--objects", "--all"]).map(|t| t.lines().filter_map(|l| l.split(' ').next().map(str::to_string)).collect()).unwrap_or_default();
+    let ids: Vec<ObjectId> = objs.iter().filter(|(id, _, _)| reachable.contains(id)).filter_map(|(id, _, _)| ObjectId::from_hex(id.as_bytes()).ok()).collect();
+    if ids.is_empty() {
+        return;
+    }
+    let stable = r.chance(1, 3);
+    let open = || {
+        gix_odb::Store::at_opts(
+            objects_dir(&dir),
+            &mut None.into_iter(),
+            gix_odb::store::init::Options { slots: Default::default(), object_hash: gix_hash::Kind::Sha1, use_multi_pack_index: true, current_dir: Some(dir.clone()) },
+        )
+        .map(Arc::new)
+    };
+    let Ok(store) = open() else { return };
+    let mut a = store.to_cache_arc();
+    if stable {
+        a.prevent_pack_unload();
+    }
+    let mut buf = Vec::new();
+    // A loads the multi-pack-index (and, half of the time, pack data as well)
+    let x = ids[r.usize(ids.len())];
+    let first_seen = if r.bool() { a.try_find(&x, &mut buf).map(|o| o.is_some()).unwrap_or(false) } else { gix_object::Exists::exists(&a, &x) };
+    let mut counter = 0;
+    let published = Mutex::new(Vec::new());
+    // a new pack, covered by a rewritten multi-pack-index
+    let mut steps = vec![mutate_step_fixed(&dir, r.below(3), r, &mut counter, &published)];
+    let _ = git::run(&dir, &["repack", "-d", "-q"]);
+    let _ = git::run(&dir, &["multi-pack-index", "write"]);
+    steps.push("repack-d+midx-write");
+    // further packs the multi-pack-index does not know
+    for _ in 0..1 + r.usize(3) {
+        steps.push(mutate_step_fixed(&dir, r.below(3), r, &mut counter, &published));
+        if r.chance(2, 3) {
+            let _ = git::run(&dir, &["repack", "-d", "-q"]);
+            steps.push("repack-d");
+        }
+    }
+    let wanted: Vec<ObjectId> = published.lock().unwrap().iter().copied().chain(std::iter::once(x)).collect();
+    let b = a.clone();
+    ctx.eval();
+    ctx.count("directed_midx_rewrite_schedules");
+    ctx.distinct(("midx-rewrite", steps.clone(), stable, first_seen));
+    let fresh = open().ok().map(|s| s.to_cache_arc());
+    for (who, h) in [("long-lived-handle", &a), ("clone-of-handle", &b)] {
+        for id in &wanted {
+            let witness = json!({"schedule": "A.find(x) with multi-pack-index; new pack; midx rewritten; further packs; lookups", "steps": steps, "id": id.to_string(), "observer": who, "stable_pack_ids": stable,
+                "fresh_store_finds_it": fresh.as_ref().map(|f| f.try_find(id, &mut Vec::new()).map(|o| o.is_some()).unwrap_or(false))});
+            ctx.eval();
+            match guard(|| h.try_find(id, &mut buf).map(|o| o.map(|d| (d.kind, d.data.len())))) {
+                Err(p) => ctx.panic_violation("Handle::try_find", &p, "after-midx-rewrite", witness),
+                Ok(Ok(Some((kind, len)))) => {
+                    if !verify(id, kind, &buf[..len]) {
+                        ctx.violation("content|wrong-object-returned", "lookup after a multi-pack-index rewrite returned other content", witness);
+                    }
+                }
+                Ok(Ok(None)) => ctx.violation("miss|after-midx-rewrite-and-new-packs", &format!("object {id} in a complete pack on disk was reported as not found by the {who}"), witness),
+                Ok(Err(e)) => ctx.count(&format!("err:{}", e.to_string().chars().take(60).collect::<String>())),
+            }
+        }
+    }
+}
+
 fn mutate_step_fixed(repo: &Path, pick: u64, r: &mut Rng, counter: &mut u64, published: &Mutex<Vec<ObjectId>>) -> &'static str {
     mutate_step_inner(repo, pick, r, counter, published)
 }
@@ -241,6 +320,8 @@ pub fn run(ctx: &mut Ctx) {
     gix_odb::verif::set_callback(Some(hook));
     let directed = ctx.n(6, 200);
     ctx.cases("directed-stale-snapshot", directed, |ctx, r| directed_stale_snapshot(ctx, r));
+    let directed = ctx.n(8, 200);
+    ctx.cases("directed-midx-rewrite", directed, |ctx, r| directed_midx_rewrite(ctx, r));
     let scenarios = ctx.n(6, 120);
     let mut signatures: HashSet<u64> = HashSet::new();
     let mut site_counts: std::collections::BTreeMap<&'static str, u64> = Default::default();
